@@ -235,7 +235,7 @@ def impl_parts(prog, t):
     out = [t] + list(t.children.values())
     for g in list(out):
         for h in callees(prog, g):
-            if isinstance(h, Func) and h.module is t.module and h.parent is None and not any(h is x for x in out) and h.jit is None:
+            if isinstance(h, Func) and prog.same_unit(t.module, h.module) and h.parent is None and not any(h is x for x in out) and h.jit is None:
                 out.append(h)
     return out
 
@@ -251,7 +251,7 @@ def find_impl(prog):
         for n in pub.own_nodes():
             if isinstance(n, ast.Call):
                 t = prog.resolve_callable(pub, m, n.func)
-                if isinstance(t, Func) and t.module is m and any(sites_in(prog, g) for g in impl_parts(prog, t)):
+                if isinstance(t, Func) and prog.same_unit(m, t.module) and any(sites_in(prog, g) for g in impl_parts(prog, t)):
                     found = t
         if found is None:
             raise AnalysisIncomplete('%s: shared implementation with a map_overlap site not found' % name)
@@ -355,7 +355,7 @@ def check(prog, rep):
         for pos, g in ((1, 'xs'), (2, 'ys')):
             got = np_terms[pos]
             try:
-                val = _grid_value(got, impl.params[0], XS, YS)
+                val = _grid_value(got, impl.params[0], XS, YS, wt.stores, {tkey(g_) for g_ in npc[0].guards})
                 ok = val == want[g]
                 why = 'on a 2 x 3 raster: %s' % (val,)
             except _NoModel as e:
@@ -417,9 +417,23 @@ class _NoModel(Exception):
     pass
 
 
-def _grid_value(t, rname, XS, YS):
+def _grid_value(t, rname, XS, YS, stores=(), use_guards=frozenset()):
     """value of a coordinate-grid term on the model raster (nested lists); _NoModel for anything not modelled"""
+    from ..wterm import key as tkey
     shape = (len(YS), len(XS))
+    FULL = ('slice', None, None, None)
+    NEWAXIS = (('global', 'np.newaxis'), ('global', 'numpy.newaxis'), ('const', None))
+
+    def broadcast(v, shp):
+        """v (scalar, list, list of lists) broadcast to the 2-D shape shp"""
+        if not isinstance(v, list):
+            return [[v] * shp[1] for _ in range(shp[0])]
+        if v and not isinstance(v[0], list):
+            v = [v]                                            # (n,) reads as (1, n)
+        r, c_ = len(v), len(v[0])
+        if r not in (1, shp[0]) or c_ not in (1, shp[1]) or any(len(row) != c_ for row in v):
+            raise _NoModel('broadcast of a %d x %d value to %s' % (r, c_, shp))
+        return [[v[i if r > 1 else 0][j if c_ > 1 else 0] for j in range(shp[1])] for i in range(shp[0])]
 
     def flat(v):
         return [z for row in v for z in (flat(row) if isinstance(row, list) else [row])] if isinstance(v, list) else [v]
@@ -452,6 +466,24 @@ def _grid_value(t, rname, XS, YS):
             return shape
         if t[0] == 'attr' and t[1] == ('data', ('param', rname)) and t[2] == 'shape':
             return shape
+        if t[0] == 'index' and t[2][0] == 'tuple' and len(t[2][1]) == 2 and any(x in NEWAXIS for x in t[2][1]) and \
+                all(x in NEWAXIS or x == FULL for x in t[2][1]):
+            base = ev(t[1])
+            if not isinstance(base, list) or (base and isinstance(base[0], list)):
+                raise _NoModel('new axis on a value that is not a vector')
+            return [list(base)] if t[2][1][0] in NEWAXIS else [[z] for z in base]
+        if t[0] == 'call' and t[1] in ('numpy.empty', 'numpy.zeros', 'numpy.empty_like', 'numpy.zeros_like') and t[2]:
+            # an allocated grid, then written as a whole: `g = np.empty(shape); g[:, :] = row[np.newaxis, :]` (broadcast)
+            shp = ev(t[2][0]) if not t[1].endswith('_like') else None
+            if shp is None and t[2][0] in (('data', ('param', rname)), ('param', rname)):
+                shp = shape
+            ws = [(tg, v_, g_) for tg, v_, g_, n_ in stores if tg[0] == 'index' and tkey(tg[1]) == tkey(t)]
+            if isinstance(shp, tuple) and len(shp) == 2 and len(ws) == 1 and all(tkey(g_) in use_guards for g_ in ws[0][2]):
+                ix = ws[0][0][2]
+                lead = ix[1] if ix[0] == 'tuple' else (ix,)
+                if all(x == FULL or x == ('const', Ellipsis) for x in lead):
+                    return broadcast(ev(ws[0][1]), shp)
+            raise _NoModel('allocated grid that is not written once as a whole')
         if t[0] == 'index':
             base, idx = ev(t[1]), ev(t[2])
             if isinstance(idx, int) and isinstance(base, (list, tuple)):
